@@ -20,7 +20,8 @@ from .c01 import FUNCS
 
 OPS = ['run', 'get_run_func', 'get_jacobian_func', 'get_nodes', 'get_edges', 'get_edge', 'collect_edges',
        'collect_edges_delay', 'get_node_template', 'getitem', 'to_yaml', 'deepcopy', 'update_template',
-       'op_update_template', 'op_derive_equations_only', 'update_var_on_copy', 'run_noclear', 'get_run_func_noclear', 'get_jacobian_func_noclear']
+       'op_update_template', 'op_derive_equations_only', 'update_var_on_copy', 'run_noclear', 'get_run_func_noclear', 'get_jacobian_func_noclear',
+       'derive_then_edit_inherited']
 
 
 def first_state(spec):
@@ -89,6 +90,19 @@ def do_op(ct, spec, name, vectorize):
             else:
                 c2 = ct.update_template(name='derived')
             c2.update_var(node_vars={first_state(spec): 5.5})
+        elif name == 'derive_then_edit_inherited':
+            # a template derived with NEW sub-circuits / nodes inherits the other ones: editing an inherited part of the
+            # DERIVED template in place must not reach the template it was derived from
+            fs = first_state(spec)
+            if depth == 0:
+                extra = copy.deepcopy(ct.nodes[nodes[-1]])
+                c2 = ct.update_template(nodes={'zz_extra': extra}, name='derived')
+                c2.nodes[nodes[0]].update_var(fs.split('/')[-2], fs.split('/')[-1], 4.75)     # public, in place
+            else:
+                head = fs.split('/')[0]
+                extra = copy.deepcopy(ct.circuits[head])
+                c2 = ct.update_template(circuits={'zz_extra': extra}, name='derived')
+                c2.circuits[head].update_var(node_vars={fs[len(head) + 1:]: 4.75})
         elif name == 'op_update_template':
             # derive an operator from a shared operator template: the base must stay as it was
             nt = ct.get_node_template(nodes[0])
